@@ -91,7 +91,7 @@ func ReadPrivateKeyFromHex(Dhex string) (*sm2.PrivateKey,error) {
 
 
 func WritePrivateKeyToHex(key *sm2.PrivateKey) string {
-	return key.D.Text(16)
+	return hex.EncodeToString(key.D.Bytes()) // always an even number of digits, as ReadPrivateKeyFromHex requires
 }
 
 func ReadPublicKeyFromHex(Qhex string) (*sm2.PublicKey, error) {
